@@ -290,6 +290,15 @@ pub struct Plan {
     /// quiescence rounds run after all scripted actors finished and before the sender is
     /// dropped (empty = no quiescence step)
     pub tail: Vec<TailOp>,
+    /// per-mille share of `when_flushed` / `when_empty` callbacks that panic when the receiver
+    /// runs them (callbacks that run at once on the caller's thread never panic)
+    pub watcher_panic_pm: u32,
+}
+
+impl Plan {
+    fn watcher_panics(&self, role: u8, idx: usize) -> bool {
+        self.watcher_panic_pm > 0 && hash_of(&(self.seed, self.case, role, idx as u64)) % 1000 < self.watcher_panic_pm as u64
+    }
 }
 
 #[derive(Clone, Debug)]
@@ -585,7 +594,8 @@ pub fn gen_plan(seed: u64, prop: u64, case: u64, cfg: &GenCfg) -> Plan {
             tail.push(TailOp { op, aim, flush });
         }
     }
-    Plan { seed, case, focus: cfg.focus, mode, flavour, cap, senders, flushers, watchers, proc, drop_after_polls, hook, tail }
+    let watcher_panic_pm = *g.pick(&[0u32, 0, 150, 400]);
+    Plan { seed, case, focus: cfg.focus, mode, flavour, cap, senders, flushers, watchers, proc, drop_after_polls, hook, tail, watcher_panic_pm }
 }
 
 impl Plan {
@@ -616,6 +626,7 @@ impl Plan {
             "watchers": self.watchers.iter().map(|w| w.iter().filter(|o| matches!(o, WOp::WhenEmpty)).count()).collect::<Vec<_>>(),
             "processor": self.proc.iter().map(|s| format!("{:?}{}{}", s.out, if s.yields > 0 { format!("+y{}", s.yields) } else { String::new() }, if s.slow_us > 0 { format!("+{}us", s.slow_us) } else { String::new() })).collect::<Vec<_>>(),
             "drop_receiver_after_polls": self.drop_after_polls,
+            "watcher_panic_per_mille": self.watcher_panic_pm,
             "quiescence_rounds": self.tail.iter().map(|t| format!("{:?}", t)).collect::<Vec<_>>(),
             "hook": format!("{:?}", self.hook),
         })
@@ -704,12 +715,16 @@ pub struct FlushRec {
     /// completion: stamp inside the callback (exact) or after a `true` return (late); None = not completed
     pub done: Option<u64>,
     pub exact: bool,
+    /// the callback panicked when the receiver ran it (scripted)
+    pub panicked_on_receiver: bool,
 }
 
 #[derive(Clone, Debug)]
 pub struct EmptyRec {
     pub req: u64,
     pub fired: Option<u64>,
+    /// the callback panicked when the receiver ran it (scripted)
+    pub panicked_on_receiver: bool,
 }
 
 /// One quiescence round: after `after` (the last sender operation has returned) nothing
@@ -775,9 +790,25 @@ pub struct History {
     /// panics that escaped a channel API call made by an actor: (operation, message)
     pub panics: Vec<(String, String)>,
     pub quiesce: Vec<QRec>,
+    /// the receiver thread / future died with a panic (message)
+    pub recv_panicked: Option<String>,
 }
 
 impl History {
+    /// Which kinds of scripted watchers panicked while the receiver ran them
+    /// ("", "on-take", "on-flush" or "on-take+on-flush").
+    pub fn panicking_watchers(&self) -> String {
+        let take = self.empties.iter().any(|e| e.panicked_on_receiver);
+        let flush = self.flushes.iter().any(|f| f.panicked_on_receiver);
+        match (take, flush) {
+            (true, true) => "on-take+on-flush",
+            (true, false) => "on-take",
+            (false, true) => "on-flush",
+            (false, false) => "",
+        }
+        .to_string()
+    }
+
     pub fn early_drop(&self) -> bool {
         self.recv_dropped_early.is_some()
     }
@@ -987,6 +1018,28 @@ thread_local! {
     /// sequential mode: the receiver future while nobody is polling it
     static SEQ_FUT: RefCell<Option<ExecFut>> = const { RefCell::new(None) };
     static SEQ_RECV_DONE: Cell<bool> = const { Cell::new(false) };
+    /// the next watcher registered by this thread panics when the receiver runs it
+    static NEXT_WATCHER_PANICS: Cell<bool> = const { Cell::new(false) };
+    /// sequential mode: the receiver future died with this panic
+    static SEQ_RECV_PANIC: RefCell<Option<String>> = const { RefCell::new(None) };
+}
+
+const PANIC_BIT: u64 = 1 << 63;
+
+/// Body of every scripted watcher: stamp, and panic if scripted to and run by the receiver.
+fn watcher_body(slot: &AtomicU64, panicky: bool) {
+    let on_receiver = ROLE.try_with(|r| r.get()).unwrap_or(ROLE_MAIN) == ROLE_RECV;
+    let st = stamp();
+    if panicky && on_receiver {
+        slot.store(st | PANIC_BIT, SeqCst);
+        quiet(|| panic!("scripted watcher panic"));
+    } else {
+        slot.store(st, SeqCst);
+    }
+}
+
+fn slot_panicked(s: &AtomicU64) -> bool {
+    s.load(SeqCst) & PANIC_BIT != 0
 }
 
 static REG: Mutex<Vec<(u32, Arc<ScCtx>)>> = Mutex::new(Vec::new());
@@ -1146,14 +1199,25 @@ fn nested_polls(n: u32) {
     let mut cx = Context::from_waker(&waker);
     let prev = ROLE.with(|r| r.replace(ROLE_RECV));
     let mut done = false;
+    let mut died = false;
     for _ in 0..n {
-        if fut.as_mut().poll(&mut cx).is_ready() {
-            done = true;
-            break;
+        match catch(|| fut.as_mut().poll(&mut cx)) {
+            Ok(Poll::Ready(())) => {
+                done = true;
+                break;
+            }
+            Ok(Poll::Pending) => {}
+            Err(msg) => {
+                SEQ_RECV_PANIC.with(|p| *p.borrow_mut() = Some(msg));
+                died = true;
+                break;
+            }
         }
     }
     ROLE.with(|r| r.set(prev));
-    if done {
+    if died {
+        // the future is dropped here; the driver finds the slot empty
+    } else if done {
         SEQ_RECV_DONE.with(|d| d.set(true));
     } else {
         SEQ_FUT.with(|f| *f.borrow_mut() = Some(fut));
@@ -1522,22 +1586,19 @@ fn do_flush(sender: &Sender<Q>, uid: u32, who: u8, op: FOp, rt_slot: &mut Rt) ->
                 false
             }
         };
-        (FlushRec { who, kind, req, done: ok.then_some(e), exact: false }, None)
+        (FlushRec { who, kind, req, done: ok.then_some(e), exact: false, panicked_on_receiver: false }, None)
     };
     match op {
         FOp::Callback => {
             let slot = Arc::new(AtomicU64::new(0));
             let s2 = slot.clone();
             let req = stamp();
-            let r = catch(|| {
-                sender.when_flushed(move || {
-                    s2.store(stamp(), SeqCst);
-                })
-            });
+            let panicky = NEXT_WATCHER_PANICS.with(|c| c.replace(false));
+            let r = catch(|| sender.when_flushed(move || watcher_body(&s2, panicky)));
             if let Err(msg) = r {
                 note_panic(uid, "when_flushed", msg);
             }
-            (FlushRec { who, kind: FlushKind::Callback, req, done: None, exact: true }, Some(slot))
+            (FlushRec { who, kind: FlushKind::Callback, req, done: None, exact: true, panicked_on_receiver: false }, Some(slot))
         }
         FOp::Blocking(t) => {
             let req = stamp();
@@ -1576,19 +1637,16 @@ fn do_when_empty(sender: &Sender<Q>, uid: u32) -> (EmptyRec, Arc<AtomicU64>) {
     let slot = Arc::new(AtomicU64::new(0));
     let s2 = slot.clone();
     let req = stamp();
-    let r = catch(|| {
-        sender.when_empty(move || {
-            s2.store(stamp(), SeqCst);
-        })
-    });
+    let panicky = NEXT_WATCHER_PANICS.with(|c| c.replace(false));
+    let r = catch(|| sender.when_empty(move || watcher_body(&s2, panicky)));
     if let Err(msg) = r {
         note_panic(uid, "when_empty", msg);
     }
-    (EmptyRec { req, fired: None }, slot)
+    (EmptyRec { req, fired: None, panicked_on_receiver: false }, slot)
 }
 
 fn slot_value(s: &AtomicU64) -> Option<u64> {
-    match s.load(SeqCst) {
+    match s.load(SeqCst) & !PANIC_BIT {
         0 => None,
         v => Some(v),
     }
@@ -1724,6 +1782,7 @@ pub fn run_concurrent(plan: &Plan, delays: bool) -> History {
                     match op {
                         FOp::Pace(p) => aimed = pace(sc, *p),
                         _ => {
+                            NEXT_WATCHER_PANICS.with(|c| c.set(matches!(op, FOp::Callback) && plan.watcher_panics(ROLE_FLUSHER0 + j as u8, log.len())));
                             log.push(do_flush(sender, uid, j as u8, *op, &mut rt_slot));
                             if aimed {
                                 sc.ack();
@@ -1748,7 +1807,10 @@ pub fn run_concurrent(plan: &Plan, delays: bool) -> History {
                         WOp::Pace(p) => {
                             pace(sc, *p);
                         }
-                        WOp::WhenEmpty => log.push(do_when_empty(sender, uid)),
+                        WOp::WhenEmpty => {
+                            NEXT_WATCHER_PANICS.with(|c| c.set(plan.watcher_panics(ROLE_WATCHER0 + k as u8, log.len())));
+                            log.push(do_when_empty(sender, uid))
+                        }
                     }
                 }
                 leave();
@@ -1808,9 +1870,18 @@ pub fn run_concurrent(plan: &Plan, delays: bool) -> History {
             let watchdog = Duration::from_secs(if cfg!(miri) { 120 } else { 5 });
             let mut q = None;
             let mut i = 0u32;
+            let mut receiver_gone = false;
             loop {
                 if sc.idle_steps.load(SeqCst) >= base + QUIESCE_IDLE_STEPS {
                     q = Some(stamp());
+                    break;
+                }
+                let gone = match &handle {
+                    RecvHandle::Spawned(h) => h.is_finished(),
+                    RecvHandle::Exec(h) => h.is_finished(),
+                };
+                if gone {
+                    receiver_gone = true;
                     break;
                 }
                 i += 1;
@@ -1832,7 +1903,9 @@ pub fn run_concurrent(plan: &Plan, delays: bool) -> History {
             quiesce.push(QRec { after, q, idle_steps_seen: seen, item: rec.id, op: rec.kind, accepted: rec.accepted, aim: t.aim, flush });
             sends.push(rec);
             if q.is_none() {
-                QUIESCE_EXPIRED.fetch_add(1, SeqCst);
+                if !receiver_gone {
+                    QUIESCE_EXPIRED.fetch_add(1, SeqCst);
+                }
                 break;
             }
         }
@@ -1844,6 +1917,7 @@ pub fn run_concurrent(plan: &Plan, delays: bool) -> History {
     // a receiver that never notices the closed channel must not hang the lane: wait with a
     // (generous, wall-clock) watchdog, then leave the thread behind and call the history stuck
     let mut stuck = None;
+    let mut recv_panicked: Option<String> = None;
     let finished = {
         let is_finished = || match &handle {
             RecvHandle::Spawned(h) => h.is_finished(),
@@ -1869,11 +1943,20 @@ pub fn run_concurrent(plan: &Plan, delays: bool) -> History {
     };
     let (recv_exit, recv_dropped_early) = if finished {
         match handle {
-            RecvHandle::Spawned(h) => {
-                h.join().expect("receiver thread");
-                (Some(stamp()), None)
-            }
-            RecvHandle::Exec(h) => h.join().expect("executor thread"),
+            RecvHandle::Spawned(h) => match h.join() {
+                Ok(()) => (Some(stamp()), None),
+                Err(p) => {
+                    recv_panicked = Some(panic_message(&p));
+                    (None, None)
+                }
+            },
+            RecvHandle::Exec(h) => match h.join() {
+                Ok(r) => r,
+                Err(p) => {
+                    recv_panicked = Some(panic_message(&p));
+                    (None, None)
+                }
+            },
         }
     } else {
         LEAKED_RECEIVERS.fetch_add(1, SeqCst);
@@ -1885,11 +1968,13 @@ pub fn run_concurrent(plan: &Plan, delays: bool) -> History {
     for (mut rec, slot) in pending_f {
         if let Some(s) = slot {
             rec.done = slot_value(&s);
+            rec.panicked_on_receiver = slot_panicked(&s);
         }
         flushes.push(rec);
     }
     for (mut rec, slot) in pending_e {
         rec.fired = slot_value(&slot);
+        rec.panicked_on_receiver = slot_panicked(&slot);
         empties.push(rec);
     }
     let metrics = read_metrics(&metrics_src);
@@ -1923,6 +2008,7 @@ pub fn run_concurrent(plan: &Plan, delays: bool) -> History {
         model: None,
         panics: take_panics(uid),
         quiesce,
+        recv_panicked,
     }
 }
 
@@ -1975,6 +2061,7 @@ pub struct Seq {
     steps: u64,
     /// receiver polls to run at the lock point of the next top-level sender operation
     lock_polls: u8,
+    watcher_panic_pm: u32,
 }
 
 impl Seq {
@@ -2091,6 +2178,7 @@ impl Seq {
             SeqKind::F(fop) => {
                 let who = op.role - ROLE_FLUSHER0;
                 label = format!("{:?}", fop);
+                NEXT_WATCHER_PANICS.with(|c| c.set(matches!(fop, FOp::Callback) && self.watcher_panic_pm > 0 && self.g.below(1000) < self.watcher_panic_pm as u64));
                 self.arm_lock_polls();
                 let rec = do_flush(&sender, self.uid, who, fop, &mut rt_slot);
                 self.apply_nested_swaps();
@@ -2098,6 +2186,7 @@ impl Seq {
             }
             SeqKind::W => {
                 label = "when_empty".to_string();
+                NEXT_WATCHER_PANICS.with(|c| c.set(self.watcher_panic_pm > 0 && self.g.below(1000) < self.watcher_panic_pm as u64));
                 self.empties.push(do_when_empty(&sender, self.uid));
             }
         }
@@ -2202,6 +2291,7 @@ pub fn run_sequential(plan: &Plan) -> History {
             injected: 0,
             steps: 0,
             lock_polls: 0,
+            watcher_panic_pm: plan.watcher_panic_pm,
         })
     });
 
@@ -2219,9 +2309,19 @@ pub fn run_sequential(plan: &Plan) -> History {
             None => return false,
         };
         ROLE.with(|r| r.set(ROLE_RECV));
-        let res = f.as_mut().poll(&mut cx);
+        let res = catch(|| f.as_mut().poll(&mut cx));
         ROLE.with(|r| r.set(ROLE_MAIN));
         *polls += 1;
+        let res = match res {
+            Ok(res) => res,
+            Err(msg) => {
+                // the receiver future died: nothing may be polled again
+                SEQ_RECV_PANIC.with(|p| *p.borrow_mut() = Some(msg));
+                *fut = None;
+                with_seq(|s| s.compare = false);
+                return false;
+            }
+        };
         with_seq(|s| {
             s.steps += 1;
             s.compare_snapshot("receiver poll")
@@ -2343,6 +2443,7 @@ pub fn run_sequential(plan: &Plan) -> History {
         .map(|(mut r, slot)| {
             if let Some(s) = slot {
                 r.done = slot_value(&s);
+                r.panicked_on_receiver = slot_panicked(&s);
             }
             r
         })
@@ -2352,6 +2453,7 @@ pub fn run_sequential(plan: &Plan) -> History {
         .into_iter()
         .map(|(mut r, slot)| {
             r.fired = slot_value(&slot);
+            r.panicked_on_receiver = slot_panicked(&slot);
             r
         })
         .collect();
@@ -2376,6 +2478,7 @@ pub fn run_sequential(plan: &Plan) -> History {
         model: None,
         panics: take_panics(uid),
         quiesce,
+        recv_panicked: SEQ_RECV_PANIC.with(|p| p.borrow_mut().take()),
     };
     h.model = Some(seq.m_end);
     h
@@ -2415,6 +2518,7 @@ pub fn calibrate_retry_budget() -> Option<u32> {
             drop_after_polls: None,
             hook: HookProfile::default(),
             tail: Vec::new(),
+            watcher_panic_pm: 0,
         };
         let h = run_sequential(&plan);
         // attempts of the longest chain
@@ -2588,6 +2692,16 @@ pub fn check_c06(h: &History, budget: Option<u32>, r: &mut Report) -> Seen {
     for (op, msg) in &h.panics {
         viol(&format!("C06:panic:{}", op), format!("{} panicked on the caller's thread: {}", op, msg), &[], Json::Null);
     }
+    // user watchers that panicked when the receiver ran them: the receiver must survive them
+    let pw = h.panicking_watchers();
+    if let Some(msg) = &h.recv_panicked {
+        viol(
+            &if pw.is_empty() { "C06:receiver-died".to_string() } else { format!("C06:receiver-died:after-panicking-watcher:{}", pw) },
+            format!("the receiver died with a panic ({}); whatever it had taken or was still queued is gone", msg),
+            &[],
+            json!({"panicking_watchers_run": pw}),
+        );
+    }
     // check 2
     for (sig, what, ids) in &att.problems {
         viol(sig, what.clone(), ids, Json::Null);
@@ -2717,18 +2831,19 @@ pub fn check_c06(h: &History, budget: Option<u32>, r: &mut Report) -> Seen {
             let last = h.sends.iter().filter(|s| s.accepted).map(|s| s.id).filter(|id| id.who == missing[0].who).max_by_key(|id| id.n);
             let class = if Some(missing[0]) == last || missing.iter().any(|m| Some(*m) == last) { "tail" } else { "middle" };
             viol(
-                &format!("C06:lost-unaccounted:{}", class),
+                &if pw.is_empty() { format!("C06:lost-unaccounted:{}", class) } else { format!("C06:lost-unaccounted:after-panicking-watcher:{}", pw) },
                 format!(
-                    "{} accepted item(s) were neither delivered nor removed by a counted truncation, e.g. {}.{} (receiver ran to completion)",
+                    "{} accepted item(s) were neither delivered nor removed by a counted truncation, e.g. {}.{} ({})",
                     missing.len(),
                     missing[0].who,
-                    missing[0].n
+                    missing[0].n,
+                    if h.recv_panicked.is_some() { "the receiver died with a panic" } else { "receiver ran to completion" }
                 ),
                 &missing[..missing.len().min(6)],
                 json!({"missing": ids_json(&missing)}),
             );
         }
-        if h.recv_exit.is_none() {
+        if h.recv_exit.is_none() && h.recv_panicked.is_none() {
             viol("C06:receiver-did-not-exit", "the receiver did not report completion".to_string(), &[], Json::Null);
         }
     }
@@ -2815,7 +2930,7 @@ pub fn check_c06(h: &History, budget: Option<u32>, r: &mut Report) -> Seen {
 /// `c` was truncated before `d`, or all its attempts returned before `d` and none starts after.
 /// Returns (completed flushes judged, items judged).
 pub fn check_c07(h: &History, r: &mut Report) -> (u64, u64) {
-    if h.early_drop() || h.stuck.is_some() {
+    if h.early_drop() || h.stuck.is_some() || h.recv_panicked.is_some() {
         return (0, 0);
     }
     let shape = h.plan.shape();
@@ -2966,6 +3081,11 @@ pub fn observe_history(h: &History, r: &mut Report) {
     r.observe("model-snapshots-compared", h.snapshots_compared);
     r.observe("ops-injected-at-receiver-points", h.injected_ops);
     r.observe(&format!("histories:{}", h.plan.shape()), 1);
+    r.observe("panicking-watchers-run-by-receiver:on-take", h.empties.iter().filter(|e| e.panicked_on_receiver).count() as u64);
+    r.observe("panicking-watchers-run-by-receiver:on-flush", h.flushes.iter().filter(|f| f.panicked_on_receiver).count() as u64);
+    if !h.panicking_watchers().is_empty() {
+        r.observe("histories:with-panicking-watcher-run-by-receiver", 1);
+    }
     for qr in &h.quiesce {
         if qr.q.is_some() {
             r.observe(
